@@ -184,7 +184,7 @@ structure Param (V : Type) where
 def findParam {V : Type} (ps : List (Param V)) (name : String) : Option (Param V) :=
   ps.find? (fun p => p.name == name)
 
-/-- loop body of `loadPersistentData` (108-116): `imp` is the datatype's `import_value`
+/-- loop body of `loadPersistentData` (108-118): `imp` is `datatype(datatype.import_value(value))`
 (`none` = it raised); an unknown name is a `KeyError`, caught like everything else -/
 def importEntry {N V : Type} (ps : List (Param V)) (imp : String → JV N → Option V) (e : String × JV N) :
     Option (String × V) :=
@@ -214,7 +214,7 @@ structure Env (P N V : Type) where
   parse : Bytes → Option (JV N)          -- decode + json.load
   ser : Dict N → List Bytes              -- json.dump chunks + newline, utf-8
   same : Dict N → Dict N → Bool          -- Python ==
-  imp : String → JV N → Option V         -- datatype.import_value of the named parameter
+  imp : String → JV N → Option V         -- datatype(datatype.import_value(·)) of the named parameter
   exp : String → V → JV N                -- datatype.export_value
   wval : String → V → Option V           -- datatype.validate inside the write wrapper (`none` = it raised)
 
